@@ -11,7 +11,7 @@ from .ops import require_source_ok
 from .ops_paths import TooBig, brute_paths, with_stubs
 
 EPS = 1e-9
-LABEL_REN = {'x': 'q', 'y': 'p', 'z': 'r'}
+LABEL_REN = {'x': 'q', 'y': 'p', 'z': 'r', 0: 'zero', 1: 'one', '': 'empty'}
 
 
 def ren_node(n):
